@@ -2,6 +2,7 @@ import KyupyVerif.Proofs.NetlistBF
 import KyupyVerif.Proofs.BenchText
 import KyupyVerif.Proofs.VerilogText
 import KyupyVerif.Proofs.BenchEnd
+import KyupyVerif.Proofs.VerilogEnd
 import KyupyVerif.Proofs.SemL
 /-! # C11 — parsed Verilog and bench netlists simulate as the described netlist
 
@@ -871,5 +872,163 @@ example : specPrimName "nand" false false = some "NAND2" ∧ specPrimName "nand"
     specPrimName "buff" false false = some "BUF1" ∧ specPrimName "__const1__" false false = some "INV1" ∧
     prim2 "NAND2" true true false false = false ∧ prim2 "INV1" false false false false = true := by decide +kernel
 end ParsedSem
+
+/-! ## `parsed_sem`, structural Verilog (fragment `verilogOKB`): the parsed circuit has the function the module denotes
+
+`verilogNet cfg tl ports stmts` is the canonical dump of `module cfg tl ports stmts` — the UNRESOLVED circuit, as `verilog.parse`
+returns it before `resolve_tlib_cells`: an instance node of cell type `K` means what the simulator's kind table makes of the name
+`K` (prefix family, arity by connected pins; `dff`/`latch` kinds are state elements), pins numbered by the library `tl`.  For a
+library whose cells are the simulation primitives this is the function of the netlist; substitution of library cells is property
+C10 (`resolve_sem`).  `VModel tl ports stmts z neg prim a σ` (Model/VerilogSem.lean): `σ` gives every instance output what the
+instance computes from the signals on its input pins, every input port bit its assigned value, every undriven name `z`.
+Fragment `verilogOKB` (decidable, spelled out in Model/VerilogSem.lean): declarations (any ranges / grouping / order / redundant
+wires), instantiations with named single-bit pins known to the library, input pins reading DRIVEN signals under the driver's
+name, all ports declared and all port declarations listed, outputs driven under their own name, pairwise different instance /
+port-bit / driven-signal (/ branch-fork) names, per instance pairwise different input pin indices; BOTH `branchforks` settings.
+NOT covered (oracle only): `assign` statements, constants on pins, concatenations / multi-bit pin connections, a 1-bit bus read by
+its base name, floating inputs, undriven outputs, positional pins. -/
+section ParsedSemVerilog
+open KV KV.Sig
+
+/-- the dump of the parsed circuit is well formed — every statement list, library, configuration -/
+theorem verilog_net_wf (cfg : Cfg) (tl : TL) (ports : List String) (stmts : List Stmt) : (verilogNet cfg tl ports stmts).wfB = true :=
+  toNet_wf _ _
+
+/-- the circuit of a module of the fragment in closed form: its lines are, in creation order, one line per instance output
+connection (cell pin → fork of the driven signal), one per input port bit (cell → fork), one per instance input connection (fork of
+the signal → cell pin; with `branchforks` two lines through the fork `signal~inst/pin`), one per output port bit (fork → cell) —
+`vFlat`, each with the signal it carries -/
+theorem verilog_lines (cfg : Cfg) (tl : TL) (ports : List String) (stmts : List Stmt) (hok : verilogOKB cfg tl ports stmts = true) :
+    flatLines (module cfg tl ports stmts) = (vFlat cfg tl (sigDecls stmts) stmts).map (fun l => (l.d, l.r)) ∧
+    (verilogNet cfg tl ports stmts).lines.size = (vSigs cfg tl stmts).length := by
+  have hok' := vok_of cfg tl ports stmts hok
+  refine ⟨module_flat hok', ?_⟩
+  rw [verilogNet_lines_size hok']
+  simp [vSigs]
+
+/-- ports and `s_nodes` of the net: the port bits in port-list order, each expanded by its declared range in declared direction
+(`posNames`, `ports_order`) — the `input`/`output` cells —, then the flip-flop instances in statement order, then the latch
+instances; `vSPos` is the position in this list -/
+theorem verilog_snodes (cfg : Cfg) (tl : TL) (ports : List String) (stmts : List Stmt) (hok : verilogOKB cfg tl ports stmts = true) :
+    (verilogNet cfg tl ports stmts).io = (posNames (sigDecls stmts) ports).map (fun n => (module cfg tl ports stmts).nodeIdx (.cell n 0)) ∧
+    (verilogNet cfg tl ports stmts).sNodes = (vSNames ports stmts).map (module cfg tl ports stmts).nodeIdx ∧
+    ∀ e ∈ vSNames ports stmts, (verilogNet cfg tl ports stmts).sPos ((module cfg tl ports stmts).nodeIdx e) = some (vSPos ports stmts e) := by
+  have hok' := vok_of cfg tl ports stmts hok
+  refine ⟨?_, verilogNet_sNodes hok', fun e he => ?_⟩
+  · show (module cfg tl ports stmts).ioVerilog = _
+    unfold Circ.ioVerilog
+    rw [module_ioNames hok', List.map_map]
+    rfl
+  · obtain ⟨h1, h2⟩ := vSNames_resolved hok' e he
+    rw [verilogNet_sPos hok' e h1 h2]
+    simp [he]
+
+/-- **`verilog_parsed_sem`**: for every module of the fragment, every value domain, op algebra and assignment:
+(1) every model `σ` of the module induces a labelling of the lines consistent with the netlist (line `i` carries `σ` of the signal
+`vSigs[i]`: an instance output line its driven signal, a reader line — and both halves of a branch — the signal read);
+(2) every labelling consistent with the netlist is induced by a model; (3) one model per labelling. -/
+theorem verilog_parsed_sem {α : Type} (cfg : Cfg) (tl : TL) (ports : List String) (stmts : List Stmt)
+    (hok : verilogOKB cfg tl ports stmts = true) (z : α) (neg : α → α) (prim : String → α → α → α → α → α) (a : Nat → α) :
+    (∀ σ, VModel tl ports stmts z neg prim a σ → NetLabelling (verilogNet cfg tl ports stmts) z neg prim a (vLabel cfg tl stmts σ)) ∧
+    (∀ v, NetLabelling (verilogNet cfg tl ports stmts) z neg prim a v →
+      ∃ σ, VModel tl ports stmts z neg prim a σ ∧ ∀ i, i < (verilogNet cfg tl ports stmts).lines.size → v i = vLabel cfg tl stmts σ i) ∧
+    (∀ σ σ', VModel tl ports stmts z neg prim a σ → VModel tl ports stmts z neg prim a σ' →
+      (∀ i, i < (verilogNet cfg tl ports stmts).lines.size → vLabel cfg tl stmts σ i = vLabel cfg tl stmts σ' i) → σ = σ') := by
+  have hok' := vok_of cfg tl ports stmts hok
+  exact ⟨fun σ hm => v_model_labelling hok' z neg prim a σ hm, fun v hv => v_labelling_model hok' z neg prim a v hv,
+    fun σ σ' h1 h2 h => v_model_unique hok' z neg prim a σ σ' h1 h2 h⟩
+
+theorem verilog_label_def {α : Type} (cfg : Cfg) (tl : TL) (stmts : List Stmt) (σ : String → α) (i : Nat) :
+    vLabel cfg tl stmts σ i = σ ((vSigs cfg tl stmts).getD i "") := rfl
+
+/-- **what is observed**: under the labelling of `σ`, the value captured at `s_nodes` position `j` is `σ o` at an output port bit
+`o`, `σ d` at a state element whose input pin index 0 reads `d`, nothing at input ports -/
+theorem verilog_captured {α : Type} (cfg : Cfg) (tl : TL) (ports : List String) (stmts : List Stmt)
+    (hok : verilogOKB cfg tl ports stmts = true) (z : α) (σ : String → α) :
+    ((verilogNet cfg tl ports stmts).sNodes.map fun n => ((verilogNet cfg tl ports stmts).node n).inPin 0 |>.map (vLabel cfg tl stmts σ)) =
+      vCaptures tl ports stmts σ :=
+  v_captures (vok_of cfg tl ports stmts hok) z σ
+
+/-- the driver's acceptance check is sound: an accepted table IS a model -/
+theorem verilog_checker_sound {α : Type} [BEq α] [LawfulBEq α] (tl : TL) (ports : List String) (stmts : List Stmt) (z : α)
+    (neg : α → α) (prim : String → α → α → α → α → α) (a : Nat → α) (tab : List (String × α))
+    (h : vModelB tl ports stmts z neg prim a tab = true) : VModel tl ports stmts z neg prim a (vEnvOf z tab) :=
+  vModelB_sound z neg prim a tab h
+
+/-- **`verilog_end_to_end`** (2-valued; composition with C01/C02): for every module of the fragment, every topological order of
+its net that schedules every line (`orderOKB`, `forksOKB`, `linesDrivenB`: decidable, evaluated by the driver on every real circuit
+and order) and every stimulus: exactly ONE model `σ`, the 2-valued `LogicSim` result is `σ` of the line's signal on every line, and
+what is captured at every interface position is what the module observes -/
+theorem verilog_end_to_end (cfg : Cfg) (tl : TL) (ports : List String) (stmts : List Stmt) (hok : verilogOKB cfg tl ports stmts = true)
+    (order : List Nat) (ho : orderOKB (verilogNet cfg tl ports stmts) order = true)
+    (hfk : forksOKB (verilogNet cfg tl ports stmts) order = true)
+    (hall : linesDrivenB Gen.kindPrefixes (verilogNet cfg tl ports stmts) order = true) (env : Nat → Bool) :
+    ∃ σ, VModel tl ports stmts (env (verilogNet cfg tl ports stmts).idx.zero) (!·) prim2
+        (fun p => env ((verilogNet cfg tl ports stmts).idx.ppi + p)) σ ∧
+      (∀ σ', VModel tl ports stmts (env (verilogNet cfg tl ports stmts).idx.zero) (!·) prim2
+        (fun p => env ((verilogNet cfg tl ports stmts).idx.ppi + p)) σ' → σ' = σ) ∧
+      (∀ i, i < (verilogNet cfg tl ports stmts).lines.size →
+        exec semL2n ((genOps Gen.kindPrefixes (verilogNet cfg tl ports stmts) order false).map OpRow.toOp) env i = vLabel cfg tl stmts σ i) ∧
+      ((verilogNet cfg tl ports stmts).sNodes.map fun n => ((verilogNet cfg tl ports stmts).node n).inPin 0 |>.map
+        (exec semL2n ((genOps Gen.kindPrefixes (verilogNet cfg tl ports stmts) order false).map OpRow.toOp) env)) =
+          vCaptures tl ports stmts σ :=
+  verilog_sim_generic (vok_of cfg tl ports stmts hok) semL2n specL2 (fun _ h xs => semL2n_eq_spec h xs) (!·) prim2 semSpec2
+    order ho hfk hall env
+
+/-- the same for the 8-valued simulation against the documented algebra -/
+theorem verilog_end_to_end8 (cfg : Cfg) (tl : TL) (ports : List String) (stmts : List Stmt) (hok : verilogOKB cfg tl ports stmts = true)
+    (order : List Nat) (ho : orderOKB (verilogNet cfg tl ports stmts) order = true)
+    (hfk : forksOKB (verilogNet cfg tl ports stmts) order = true)
+    (hall : linesDrivenB Gen.kindPrefixes (verilogNet cfg tl ports stmts) order = true) (env : Nat → V3) :
+    ∃ σ, VModel tl ports stmts (env (verilogNet cfg tl ports stmts).idx.zero) specNot prim8
+        (fun p => env ((verilogNet cfg tl ports stmts).idx.ppi + p)) σ ∧
+      (∀ σ', VModel tl ports stmts (env (verilogNet cfg tl ports stmts).idx.zero) specNot prim8
+        (fun p => env ((verilogNet cfg tl ports stmts).idx.ppi + p)) σ' → σ' = σ) ∧
+      (∀ i, i < (verilogNet cfg tl ports stmts).lines.size →
+        exec semL8 ((genOps Gen.kindPrefixes (verilogNet cfg tl ports stmts) order false).map OpRow.toOp) env i = vLabel cfg tl stmts σ i) ∧
+      ((verilogNet cfg tl ports stmts).sNodes.map fun n => ((verilogNet cfg tl ports stmts).node n).inPin 0 |>.map
+        (exec semL8 ((genOps Gen.kindPrefixes (verilogNet cfg tl ports stmts) order false).map OpRow.toOp) env)) =
+          vCaptures tl ports stmts σ :=
+  verilog_sim_generic (vok_of cfg tl ports stmts hok) semL8 specL8 (fun _ h xs => semL8_eq_spec h xs) specNot prim8 semSpec8
+    order ho hfk hall env
+
+/-- **from TEXT**: the net of the circuit built from the model's reading of the printed module text is `verilogNet` of the
+transformed statement list — so the theorems above speak about circuits parsed from text (`verilog_text_layout_irrelevant`: any layout) -/
+theorem verilog_text_to_net (cfg : Cfg) (tl : TL) (m : KV.VerilogText.VModule) (rs : List RStmt)
+    (hv : KV.VerilogText.validModule m = true) (hr : KV.VerilogText.toRs m.stmts = some rs) :
+    (KV.VerilogText.circOfText cfg tl (KV.VerilogText.printVerilog [m])).map (fun C => C.toNet C.ioVerilog) =
+      some (verilogNet cfg tl m.ports (rs.map transform)) := by
+  rw [verilog_text_to_netlist cfg tl m rs hv hr]
+  rfl
+
+/-! ### non-vacuity: `module m(a, z); input a; output z; wire n; DFF_X1 f (.D(n), .Q(q), .QN(qn)); NAND2_X1 u1 (.A1(a), .A2(q), .ZN(n));
+INV_X1 u2 (.I(qn), .ZN(z)); endmodule` -/
+def exTL2 : TL := fun k p =>
+  if k == "DFF_X1" then (if p == "D" then some (0, false) else if p == "CK" then some (1, false) else if p == "Q" then some (0, true)
+    else if p == "QN" then some (1, true) else none)
+  else exTL k p
+def exV : List Stmt := [.decls [⟨.input, "a", none⟩], .decls [⟨.output, "z", none⟩], .decls [⟨.wire, "n", none⟩],
+  .inst "DFF_X1" "f" [("D", .one "n"), ("Q", .one "q"), ("QN", .one "qn")],
+  .inst "NAND2_X1" "u1" [("A1", .one "a"), ("A2", .one "q"), ("ZN", .one "n")],
+  .inst "INV_X1" "u2" [("I", .one "qn"), ("ZN", .one "z")]]
+/-- assignment: `a = 1` (position 0), state of `f` = 1 (position 2; position 1 is the output port) -/
+def exVA : Nat → Bool := fun p => p == 0 || p == 2
+
+example : verilogOKB {} exTL2 ["a", "z"] exV = true ∧ verilogOKB { bf := true } exTL2 ["a", "z"] exV = true ∧
+    (module {} exTL2 ["a", "z"] exV).err = false := by decide +kernel
+example : vSNames ["a", "z"] exV = [.cell "a" 0, .cell "z" 0, .cell "f" 0] ∧
+    vSigs {} exTL2 exV = ["q", "qn", "n", "z", "a", "n", "a", "q", "qn", "z"] ∧
+    vSigs { bf := true } exTL2 exV = ["q", "qn", "n", "z", "a", "n", "n", "a", "a", "q", "q", "qn", "qn", "z"] := by decide +kernel
+/-- the model: `q = 1`, `qn = 0` (state and its inversion), `n = NAND(1, 1) = 0`, `z = NOT(0) = 1`; observed: `z = 1`, next state `n = 0` -/
+example : vEval exTL2 ["a", "z"] exV false (!·) prim2 exVA = [("a", true), ("q", true), ("qn", false), ("n", false), ("z", true)] ∧
+    vModelB exTL2 ["a", "z"] exV false (!·) prim2 exVA (vEval exTL2 ["a", "z"] exV false (!·) prim2 exVA) = true ∧
+    vCaptures exTL2 ["a", "z"] exV (vEnvOf false (vEval exTL2 ["a", "z"] exV false (!·) prim2 exVA)) = [none, some true, some false] := by
+  decide +kernel
+/-- the net (10 nodes) and an order satisfying the hypotheses of `verilog_end_to_end` -/
+example : (verilogNet {} exTL2 ["a", "z"] exV).io = [7, 9] ∧ (verilogNet {} exTL2 ["a", "z"] exV).sNodes = [7, 9, 0] ∧
+    orderOKB (verilogNet {} exTL2 ["a", "z"] exV) [7, 8, 0, 1, 2, 3, 4, 5, 6, 9] = true ∧
+    forksOKB (verilogNet {} exTL2 ["a", "z"] exV) [7, 8, 0, 1, 2, 3, 4, 5, 6, 9] = true ∧
+    linesDrivenB Gen.kindPrefixes (verilogNet {} exTL2 ["a", "z"] exV) [7, 8, 0, 1, 2, 3, 4, 5, 6, 9] = true := by decide +kernel
+end ParsedSemVerilog
 
 end KV.C11
